@@ -17,7 +17,8 @@
 //!   desc-field #s | desc-method #s | desc-return #s
 //!   oracle-no-panic <op> <args…>     `ok pass` | `ok out-of-domain` (a site listed as open) | `ok (fail <where>)`
 //!   oracle-write-no-panic x<class>   whatever read_class accepts, write_class handles without panicking
-//!   oracle-alloc x<class>            largest single allocation requested while reading <= 64 * |input| + 2^24
+//!   oracle-alloc code x<body>        largest single allocation requested while reading <= 64 * |body| + 2^24
+//!   labels-full <k> | anno-nest <d> | dyn-chain <k> | writer-grow <nops> <nitf>    compact forms of the large witnesses
 use std::io::{BufRead, BufReader, Cursor, Write};
 use std::panic::{catch_unwind, AssertUnwindSafe};
 use std::process::{Child, ChildStdin, ChildStdout, Command, Stdio};
@@ -61,6 +62,7 @@ const SITES: &[(u32, &str, &str)] = &[
 	(8, "duke/src/tree/descriptor.rs", "size += 1"),
 	(9, "duke/src/simple_class_writer.rs", "compute_signed_offset(opcode_pos + 1 + 2, target)"),
 	(20, "duke/src/class_reader.rs", "r.get_ref()[(r.position() as usize)..]"),
+	(23, "duke/src/class_reader.rs", "_ => unreachable!()"),
 	(21, "duke/src/class_reader.rs", "opcode - opcode::ILOAD_0"),
 	(22, "duke/src/class_reader.rs", "opcode::ILOAD + (shifted >> 2)"),
 	(24, "duke/src/class_reader.rs", "opcode - opcode::ISTORE_0"),
@@ -259,6 +261,49 @@ fn run_argsize(desc: &[u32]) -> Outc {
 	})
 }
 
+/// 65535 bytes of code, an exception range 0..65535 (labels 0 and 65535), line numbers at 1..=k: k + 2 labels
+fn labels_full_body(k: usize) -> Vec<u8> {
+	let mut b = vec![0, 1, 0, 1];
+	u32be(&mut b, 65535);
+	b.extend(std::iter::repeat(0u8).take(65534)); b.push(0xb1);
+	b.extend([0, 1, 0, 0, 255, 255, 0, 0, 0, 0]);
+	b.extend([0, 1]); u16be(&mut b, 25); u32be(&mut b, 2 + 4 * k);
+	u16be(&mut b, k);
+	for pc in 1..=k { u16be(&mut b, pc); b.extend([0, 1]); }
+	b
+}
+
+/// class A implements I0..I{nitf-1} { void m() { nop*nops; ldc <Integer>; ifeq -32768 } }: read, then write
+fn run_writer_grow(nops: usize, nitf: usize) -> Outc {
+	if nitf > 1000 || nops > 70000 { return Outc::Err; }
+	let mut pool: Vec<Vec<u8>> = Vec::new();
+	let mut add = |e: Vec<u8>| -> usize { pool.push(e); pool.len() };
+	let mk_utf8 = |s: &[u8]| { let mut v = Vec::new(); utf8(&mut v, s); v };
+	let mk_cls = |i: usize| { let mut v = vec![7]; u16be(&mut v, i); v };
+	let n_a = add(mk_utf8(b"A")); let c_a = add(mk_cls(n_a));
+	let n_o = add(mk_utf8(b"java/lang/Object")); let c_o = add(mk_cls(n_o));
+	let n_m = add(mk_utf8(b"m")); let n_d = add(mk_utf8(b"()V")); let n_code = add(mk_utf8(b"Code"));
+	let int = add(vec![3, 0, 0, 0x30, 0x39]);
+	let mut itfs = Vec::new();
+	for i in 0..nitf { let n = add(mk_utf8(format!("I{i}").as_bytes())); itfs.push(add(mk_cls(n))); }
+	let mut code = vec![0u8; nops];
+	code.extend([0x12, int as u8, 0x99, 0x80, 0x00]);
+	let mut c = vec![0xca, 0xfe, 0xba, 0xbe, 0, 0, 0, 52];
+	u16be(&mut c, pool.len() + 1);
+	for e in &pool { c.extend_from_slice(e); }
+	c.extend([0, 0x21]); u16be(&mut c, c_a); u16be(&mut c, c_o); u16be(&mut c, itfs.len());
+	for i in &itfs { u16be(&mut c, *i); }
+	c.extend([0, 0, 0, 1, 0, 1]); u16be(&mut c, n_m); u16be(&mut c, n_d); c.extend([0, 1]); u16be(&mut c, n_code);
+	u32be(&mut c, 12 + code.len()); c.extend([0, 2, 0, 1]); u32be(&mut c, code.len()); c.extend(code); c.extend([0, 0, 0, 0]);
+	c.extend([0, 0]);
+	guarded(|| {
+		let cf = read_class_bytes(&c)?;
+		let mut out = Vec::new();
+		duke::write_class(&mut out, &cf).map_err(|_| ())?;
+		Ok(unit())
+	})
+}
+
 fn text_of(b: &[u8]) -> &[u8] { b }
 
 fn run_tiny(n: usize, b: &[u8]) -> Outc {
@@ -310,6 +355,10 @@ fn run_plain(op: &str, args: &[Sexp]) -> Result<Outc, String> {
 		("anno", [b]) => run_anno(&b.as_bytes()?),
 		("dyn", spec) => run_dyn(spec)?,
 		("argsize", [d]) => run_argsize(&d.as_cps()?),
+		("labels-full", [k]) => run_code(&labels_full_body(k.as_nat()?)),
+		("anno-nest", [d]) => { let d = d.as_nat()?; let mut b = Vec::with_capacity(3 * d + 3); for _ in 0..d { b.extend([b'[', 0, 1]); } b.extend([b'I', 0, 15]); run_anno(&b) }
+		("dyn-chain", [k]) => { let k = k.as_nat()?; let spec: Vec<Sexp> = (0..k).map(|i| if i + 1 < k { Sexp::list(vec![Sexp::nat(i + 1)]) } else { Sexp::list(vec![]) }).collect(); run_dyn(&spec)? }
+		("writer-grow", [a, b]) => run_writer_grow(a.as_nat()?, b.as_nat()?),
 		("tiny", [n, b]) => run_tiny(n.as_nat()?, &b.as_bytes()?),
 		("tinydiff", [b]) => run_tinydiff(&b.as_bytes()?),
 		("enigma", [b]) => run_enigma(&b.as_bytes()?),
@@ -380,10 +429,10 @@ fn exec_child(op: &str, args: &[Sexp]) -> Ans {
 			});
 			match r { Outc::Panic(p) => Ans::fail(&p), _ => Ans::pass() }
 		}
-		("oracle-alloc", [b]) => {
+		("oracle-alloc", [Sexp::Atom(inner), b]) if inner == "code" => {
 			let Ok(b) = b.as_bytes() else { return Ans::BadOp("bytes".into()) };
 			MAX_REQ.store(0, Ordering::Relaxed);
-			let r = run_classread(&b);
+			let r = run_code(&b);
 			let m = MAX_REQ.load(Ordering::Relaxed);
 			if let Outc::Panic(p) = &r { if !OPEN_SITES.contains(&p.as_str()) { return Ans::fail(p); } }
 			if m <= 64 * b.len() + (1 << 24) { Ans::pass() } else { Ans::fail("alloc") }
@@ -608,7 +657,6 @@ fn gen_class_stream(r: &mut Rng, tier: Tier, out: &mut Out) {
 		if b.len() <= 40000 {
 			hexop(out, "classread", b);
 			out.op("oracle-write-no-panic", &[Sexp::bytes(b)]);
-			out.op("oracle-alloc", &[Sexp::bytes(b)]);
 		}
 	}
 	let small: Vec<&Vec<u8>> = bases.iter().filter(|b| b.len() <= 6000).collect();
@@ -626,7 +674,6 @@ fn gen_class_stream(r: &mut Rng, tier: Tier, out: &mut Out) {
 			1 => oracle(out, "classread", &[Sexp::bytes(&m)]),
 			_ => out.op("oracle-write-no-panic", &[Sexp::bytes(&m)]),
 		}
-		if i % 16 == 0 { out.op("oracle-alloc", &[Sexp::bytes(&m)]); }
 	}
 	// truncation at every position of two small classes
 	let mut tiny: Vec<&Vec<u8>> = bases.iter().filter(|b| !risky(b)).collect();
@@ -638,51 +685,68 @@ fn gen_class_stream(r: &mut Rng, tier: Tier, out: &mut Out) {
 
 // ---- Code attribute bodies for the wrapper
 
+/// mostly valid bytecode over the wrapper pool: instructions are laid out first (switch padding depends on the
+/// position), then every branch slot is patched with an offset to an instruction start (or, sometimes, elsewhere)
 fn gen_bytecode(r: &mut Rng, out: &mut Out) -> Vec<u8> {
-	let mut c = Vec::new();
-	let n = r.range(1, 8);
+	let mut c: Vec<u8> = Vec::new();
+	let mut starts: Vec<usize> = Vec::new();
+	let mut slots: Vec<(usize, usize, usize)> = Vec::new(); // (opcode_pos, slot offset, width)
+	let hostile = r.chance(1, 4);
+	let bad = |r: &mut Rng| hostile && r.chance(1, 4);
+	let n = r.range(1, 10);
 	for _ in 0..n {
 		let pos = c.len();
-		match r.below(20) {
-			0 => c.push(0),                                                 // nop
-			1 => { c.push(*r.pick(&[0x10u8, 0x12, 0x15, 0x36, 0xa9, 0xbc])); c.push(*r.pick(&[0u8, 1, 2, 4, 11, 12, 15, 17, 19, 21, 22, 23, 35, 255])); }
-			2 => { c.push(*r.pick(&[0x11u8, 0x13, 0x14, 0x84])); c.push(0); c.push(*r.pick(&[2u8, 4, 15, 17, 19, 21, 12, 13, 200])); }
-			3 => { c.push(*r.pick(&[0xb2u8, 0xb3, 0xb4, 0xb5, 0xb6, 0xb7, 0xb8, 0xbb, 0xbd, 0xc0, 0xc1])); c.push(0); c.push(*r.pick(&[2u8, 4, 12, 13, 14, 1, 0, 40])); }
-			4 => { c.push(0xc5); c.push(0); c.push(*r.pick(&[2u8, 4, 12])); c.push(r.below(4) as u8); }
-			5 => { c.push(0xb9); c.push(0); c.push(*r.pick(&[14u8, 13, 12])); c.push(1); c.push(0); }
-			6 => { c.push(0xba); c.push(0); c.push(*r.pick(&[14u8, 15])); c.push(0); c.push(0); }
-			7 => { c.push(0xc4); c.push(*r.pick(&[0x15u8, 0x36, 0xa9, 0x84, 0x00, 0xc4])); c.push(0); c.push(r.below(5) as u8); if r.chance(1, 2) { c.push(0); c.push(1); } }
-			8 | 9 => { // branch with an offset that mostly lands inside
-				c.push(*r.pick(&[0x99u8, 0xa7, 0xa8, 0xc6, 0xc7, 0x9f]));
-				let t: i32 = *r.pick(&[0, 0, 3, -(pos as i32), 1, -1, 300, -300, 32767, -32768]);
-				c.extend((t as i16).to_be_bytes());
-			}
-			10 => { c.push(*r.pick(&[0xc8u8, 0xc9])); let t: i32 = *r.pick(&[0, 5, -(pos as i32), i32::MAX, i32::MIN, 65536, -1]); c.extend(t.to_be_bytes()); }
-			11 | 12 => { // tableswitch
+		starts.push(pos);
+		match r.below(22) {
+			0 | 1 => c.push(*r.pick(&[0u8, 1, 3, 9, 0x57, 0x59, 0x60, 0xbe, 0xbf, 0xc2, 0xc3, 0x2e, 0x4f, 0x85, 0x98])),
+			2 => { c.push(*r.pick(&[0x10u8, 0x15, 0x19, 0x36, 0x3a, 0xa9])); c.push(r.below(256) as u8); }
+			3 => { c.push(0x12); c.push(if bad(r) { *r.pick(&[0u8, 1, 12, 18, 20, 35, 255]) } else { *r.pick(&[2u8, 4, 15, 16, 21, 22, 23]) }); }
+			4 => { c.push(*r.pick(&[0x13u8, 0x14])); c.push(if bad(r) { 1 } else { 0 }); c.push(if bad(r) { *r.pick(&[0u8, 13, 18, 200]) } else { *r.pick(&[2u8, 15, 17, 19, 21, 22, 23]) }); }
+			5 => { c.push(*r.pick(&[0x11u8, 0x84])); c.push(r.below(256) as u8); c.push(r.below(256) as u8); }
+			6 => { c.push(*r.pick(&[0xb2u8, 0xb3, 0xb4, 0xb5])); c.push(0); c.push(if bad(r) { *r.pick(&[13u8, 11, 0, 2]) } else { 12 }); }
+			7 => { let op = *r.pick(&[0xb6u8, 0xb7, 0xb8]); c.push(op); c.push(0); c.push(if bad(r) { *r.pick(&[12u8, 8, 0]) } else if op == 0xb6 { 13 } else { *r.pick(&[13u8, 14]) }); }
+			8 => { c.push(0xb9); c.push(0); c.push(if bad(r) { 13 } else { 14 }); c.push(1); c.push(0); }
+			9 => { c.push(0xba); c.push(0); c.push(*r.pick(&[14u8, 15, 22])); c.push(0); c.push(0); out.stats.hit("code:invokedynamic"); }
+			10 => { c.push(*r.pick(&[0xbbu8, 0xbd, 0xc0, 0xc1])); c.push(0); c.push(if bad(r) { *r.pick(&[1u8, 3, 12, 0]) } else { *r.pick(&[2u8, 4]) }); }
+			11 => { c.push(0xbc); c.push(if bad(r) { *r.pick(&[0u8, 3, 12, 255]) } else { r.range(4, 11) as u8 }); }
+			12 => { c.push(0xc5); c.push(0); c.push(if bad(r) { 12 } else { 2 }); c.push(r.below(4) as u8); }
+			13 => { c.push(0xc4); let w = if bad(r) { *r.pick(&[0x00u8, 0xc4, 0x10, 0x3b]) } else { *r.pick(&[0x15u8, 0x19, 0x36, 0x3a, 0xa9, 0x84]) }; c.push(w); c.push(0); c.push(r.below(5) as u8); if w == 0x84 { c.push(0); c.push(1); } out.stats.hit("code:wide"); }
+			14 | 15 => { c.push(*r.pick(&[0x99u8, 0x9a, 0x9f, 0xa6, 0xa7, 0xa8, 0xc6, 0xc7])); slots.push((pos, c.len(), 2)); c.extend([0, 0]); }
+			16 => { c.push(*r.pick(&[0xc8u8, 0xc9])); slots.push((pos, c.len(), 4)); c.extend([0, 0, 0, 0]); }
+			17 | 18 => {
 				out.stats.hit("code:tableswitch");
 				c.push(0xaa);
 				while c.len() % 4 != 0 { c.push(*r.pick(&[0u8, 0xff])); }
-				let (low, high): (i32, i32) = *r.pick(&[(0, 0), (0, 2), (-1, 1), (5, 4), (i32::MIN, i32::MAX), (i32::MIN, -1), (0, i32::MAX), (i32::MAX, i32::MAX), (0, 70000), (-2, i32::MAX - 2)]);
-				c.extend(0i32.to_be_bytes()); c.extend(low.to_be_bytes()); c.extend(high.to_be_bytes());
+				slots.push((pos, c.len(), 4)); c.extend([0, 0, 0, 0]);
+				let (low, high): (i32, i32) = if bad(r) { *r.pick(&[(5, 4), (i32::MIN, i32::MAX), (i32::MIN, -1), (0, i32::MAX), (0, 70000), (-2, i32::MAX - 2), (i32::MIN, i32::MIN + 2)]) }
+					else { *r.pick(&[(0, 0), (0, 2), (-1, 1), (i32::MAX, i32::MAX), (i32::MIN, i32::MIN), (10, 13), (i32::MAX - 1, i32::MAX)]) };
+				c.extend(low.to_be_bytes()); c.extend(high.to_be_bytes());
 				let k = if high >= low && (high as i64 - low as i64) < 8 { (high - low + 1) as usize } else { r.below(3) };
-				let k = if r.chance(1, 6) { k.saturating_sub(1) } else { k };
-				for _ in 0..k { c.extend((*r.pick(&[0i32, 0, -(pos as i32), 1 << 20])).to_be_bytes()); }
+				let k = if bad(r) { k.saturating_sub(1) } else { k };
+				for _ in 0..k { slots.push((pos, c.len(), 4)); c.extend([0, 0, 0, 0]); }
 			}
-			13 => { // lookupswitch
+			19 => {
 				out.stats.hit("code:lookupswitch");
 				c.push(0xab);
 				while c.len() % 4 != 0 { c.push(0); }
-				let np: i32 = *r.pick(&[0, 1, 2, -1, i32::MAX, 1 << 20, 3]);
-				c.extend(0i32.to_be_bytes()); c.extend(np.to_be_bytes());
+				slots.push((pos, c.len(), 4)); c.extend([0, 0, 0, 0]);
+				let np: i32 = if bad(r) { *r.pick(&[-1, i32::MAX, 1 << 20, i32::MIN]) } else { r.below(4) as i32 };
+				c.extend(np.to_be_bytes());
 				let k = if (0..4).contains(&np) { np as usize } else { r.below(2) };
-				for j in 0..k { c.extend((j as i32).to_be_bytes()); c.extend(0i32.to_be_bytes()); }
+				for j in 0..k { c.extend((j as i32).to_be_bytes()); slots.push((pos, c.len(), 4)); c.extend([0, 0, 0, 0]); }
 			}
-			14 => c.push(*r.pick(&[0x1au8, 0x2d, 0x3b, 0x4e, 0x2a, 0x4b, 0x1d])),  // xload_n / xstore_n
-			15 => c.push(*r.pick(&[0xcau8, 0xfe, 0xff, 0xcb, 0xd0])),              // reserved / unknown
-			_ => c.push(*r.pick(&[0xb1u8, 0xac, 0x57, 0x59, 0x60, 0xbe, 0xbf, 0xc2])),
+			20 => c.push(*r.pick(&[0x1au8, 0x1d, 0x1e, 0x21, 0x2a, 0x2d, 0x3b, 0x3e, 0x43, 0x4b, 0x4e])),  // xload_n / xstore_n
+			_ => c.push(if bad(r) { *r.pick(&[0xcau8, 0xfe, 0xff, 0xcb, 0xd0]) } else { 0xb1 }),
 		}
 	}
-	if r.chance(1, 5) { let n = r.below(c.len() + 1); c.truncate(n.max(1)); out.stats.hit("code:truncated-bytecode"); }
+	for (pos, off, w) in slots {
+		let t: i64 = if bad(r) { *r.pick(&[c.len() as i64, c.len() as i64 + 1, -1, 1, 65536, 32768, i32::MAX as i64, i32::MIN as i64, (pos + 1) as i64]) }
+			else { *r.pick(&starts) as i64 };
+		let d = t - pos as i64;
+		if w == 2 { let v = d as i16; c[off..off + 2].copy_from_slice(&v.to_be_bytes()); } else { let v = d as i32; c[off..off + 4].copy_from_slice(&v.to_be_bytes()); }
+	}
+	if hostile && r.chance(1, 3) { let n = r.below(c.len() + 1); c.truncate(n.max(1)); out.stats.hit("code:truncated-bytecode"); }
+	out.stats.hit(if hostile { "code:hostile" } else { "code:valid-bytecode" });
 	c
 }
 
@@ -806,6 +870,7 @@ fn gen_wrapped(r: &mut Rng, tier: Tier, out: &mut Out) {
 	for i in 0..rounds {
 		let b = gen_code_body(r, out);
 		if i % 3 == 0 { oracle(out, "code", &[Sexp::bytes(&b)]); } else { hexop(out, "code", &b); }
+		if i % 8 == 0 { out.op("oracle-alloc", &[Sexp::tag("code"), Sexp::bytes(&b)]); }
 	}
 	for i in 0..rounds / 2 {
 		let mut b = Vec::new();
